@@ -17,7 +17,10 @@ MANIFEST = {
             "components / dynamic slots) EXCEPT the list manager: glass-easel/src/tmpl/range_list_diff.ts itself is executed, "
             "translated to JavaScript on every run by the type-erasing translator lib/tsstrip.py (trusted: erases imports, field "
             "declarations, annotations, casts, non-null assertions, one const enum; checked by node --check), behind an adapter "
-            "for the child-list operations of element.ts. Functions in data are pure.",
+            "for the child-list operations of element.ts, and the template-instance class of glass-easel/src/tmpl/index.ts, which builds "
+            "the update path trees from data changes (replace / splice) and drives jsrt; steps whose runtime-built tree does not "
+            "cover the data difference (splices that shift items read by index) are outside the premise and cut the history. "
+            "Functions in data are pure.",
     "technique": "Coq proof (guard soundness of the path analysis on the access/operator/conditional fragment, update-path-tree coverage) + model/implementation text and denotation correspondence + exhaustive / matrix / random metamorphic execution under node",
     "jsrt": True,
 }
@@ -50,7 +53,13 @@ def check_results(res, results, label):
                 res.violation("%s: generated code throws during create/update: %s" % (label, first[:300]),
                               {"src": j["src"], "datas": j["datas"], "trees": j["trees"], "error": first, "fresh_error": fresh_err})
             continue
+        how = run.get("how")
         for k, fr in enumerate(r["fresh"]):
+            # histories of data changes: the comparison is owed only while the trees the runtime built cover the differences
+            # (a splice marks the inserted positions, not the shifted ones: plain index / length bindings are then outside
+            # the premise of the property)
+            if how is not None and k < len(how) and how[k] == "tree-not-covering":
+                break
             n_steps += 1
             if fr.get("error"):
                 continue
@@ -138,6 +147,13 @@ def run(res):
         res.violation("the type-erasing translator cannot process glass-easel/src/tmpl/range_list_diff.ts (%s): the list diff of "
                       "the real runtime is not under execution" % RLD_STATE["error"],
                       {"obligation": "translator lib/tsstrip.py on range_list_diff.ts", "error": RLD_STATE["error"]}, no_input=True)
+    idx = real_template_instance()
+    res.notes["template_instance"] = ("glass-easel/src/tmpl/index.ts (class GlassEaselTemplateInstance) translated -> %s" % os.path.basename(idx)) if idx \
+        else "NOT translated"
+    if not idx:
+        res.violation("the type-erasing translator cannot process glass-easel/src/tmpl/index.ts (%s): the update path trees of the "
+                      "real runtime are not under execution" % IDX_STATE["error"],
+                      {"obligation": "translator lib/tsstrip.py on tmpl/index.ts", "error": IDX_STATE["error"]}, no_input=True)
     results = behave.get_results(res.tier, res.seed, "behave")
     subsets = behave.get_results(res.tier, res.seed, "behave_subsets")
     matrix = behave.get_results(res.tier, res.seed, "behave_matrix")
@@ -146,6 +162,15 @@ def run(res):
     n1, nt1, f1 = check_results(res, results, "random history")
     n2, nt2, f2 = check_results(res, subsets, "exhaustive leaf subsets")
     n3, nt3, f3 = check_results(res, matrix, "expression shape x binding context matrix")
+    if idx:
+        chg = behave.get_results(res.tier, res.seed, "behave_changes")
+        n4, nt4, f4 = check_results(res, chg, "data changes (replace / splice) through the real template instance")
+        how = {}
+        for r in chg:
+            for h in r["run"].get("how", []):
+                how[h] = how.get(h, 0) + 1
+        res.notes["change_histories"] = {"steps": n4, "nontrivial": nt4, "updates_by": how}
+        n3, nt3, f3 = n3 + n4, nt3 + nt4, f3 + f4
     if not ok:
         res.violation(what, {"obligation": "Properties/C06.v"}, no_input=(f1 + f2 + f3 + fd == 0))
     if f1 + f2 + f3 > 0:
